@@ -393,17 +393,36 @@ func handle(f []string) string {
 				}
 				tmin, _ := strconv.ParseInt(op[2], 10, 64)
 				tmax, _ := strconv.ParseInt(op[3], 10, 64)
-				pulls, e := tab.Query(sc, sids, tmin, tmax, op[4])
+				render := func(batch bool) (string, string) {
+					pulls, e := tab.Query(sc, sids, tmin, tmax, op[4], batch)
+					if e != "" {
+						return "", e
+					}
+					var sb strings.Builder
+					for _, rows := range pulls {
+						for i := range rows {
+							sb.WriteByte(' ')
+							sb.WriteString(showRow(&rows[i]))
+						}
+					}
+					return sb.String(), ""
+				}
+				// both read paths of measure.Query: the row path (Pull) and the columnar path (PullBatch); the second
+				// is printed only when it differs ("#B ...")
+				rowRes, e := render(false)
 				if e != "" {
 					return e
 				}
+				batchRes, e := render(true)
+				if e != "" {
+					return "B" + e
+				}
 				var sb strings.Builder
 				sb.WriteString("R")
-				for _, rows := range pulls {
-					for i := range rows {
-						sb.WriteByte(' ')
-						sb.WriteString(showRow(&rows[i]))
-					}
+				sb.WriteString(rowRes)
+				if batchRes != rowRes {
+					sb.WriteString(" #B")
+					sb.WriteString(batchRes)
 				}
 				return sb.String()
 			}
